@@ -48,7 +48,7 @@ std::string Op::to_text() const {
         case OP_OMIT: put(s, "sig", sig); put(s, "en", en); break;
         case OP_ANNO: put(s, "sig", sig); put(s, "a", a); put(s, "n", n); put(s, "st", st); put(s, "at", at); put(s, "grp", grp); putu(s, "y", ybits); putu(s, "gs", gs); break;
         case OP_UTC: put(s, "sig", sig); put(s, "a", a); put(s, "b", b); break;
-        case OP_USER: put(s, "meta", meta); put(s, "st", st); put(s, "n", n); putu(s, "gs", gs); break;
+        case OP_USER: put(s, "meta", meta); put(s, "st", st); put(s, "n", n); putu(s, "gs", gs); if (en) put(s, "en", en); break;     // en=1: NULL data pointer with a non-zero size (sync writer; must be refused)
         case OP_FLUSH: if (en) put(s, "en", en); break;
         case OP_CLOSE: break;
         case OP_FLAGS: put(s, "en", en); break;
